@@ -155,7 +155,9 @@ func (r *zzRef) exec(in zzIns, inputs []uint64) {
 	case "nop":
 	case "mov", "rset":
 		d := reg(0)
-		if s, isreg := zzIsReg(in.a[1]); isreg {
+		if len(in.a[1]) >= 2 && in.a[1][0] == 'i' && in.a[1][1] >= '0' && in.a[1][1] <= '9' {
+			r.regs[d] = inputs[zzPortNo(in.a[1])] // mov from an input: i2r or i2rw by the I/O mode, the same value
+		} else if s, isreg := zzIsReg(in.a[1]); isreg {
 			r.regs[d] = r.regs[s]
 		} else {
 			v, ok := zzC05Lit(in.a[1])
@@ -237,6 +239,32 @@ func zzC05(rsize int, cps string, ins string, outs string, links string, src str
 		}
 	}
 	zzAssert("source-inside-the-interpreted-subset", ref.ok)
+	// the I/O mode in force (section metadata, else the global default, else async) decides the opcode of a mov from an input
+	mode, movIn := "async", false
+	for _, raw := range strings.Split(src, "\n") {
+		f := strings.Fields(raw)
+		if len(f) >= 5 && f[0] == "%meta" && f[1] == "bmdef" && f[3] == "iomode:" {
+			mode = f[4]
+		}
+	}
+	for _, raw := range strings.Split(src, "\n") {
+		f := strings.Fields(raw)
+		if len(f) >= 4 && f[0] == "%section" && strings.HasPrefix(f[3], "iomode:") {
+			mode = strings.TrimPrefix(f[3], "iomode:")
+		}
+	}
+	for _, in := range ref.src.prog {
+		if in.op == "mov" && len(in.a) == 2 && len(in.a[1]) >= 2 && in.a[1][0] == 'i' && in.a[1][1] >= '0' && in.a[1][1] <= '9' {
+			movIn = true
+		}
+	}
+	hasI2rw := false
+	for _, op := range bm.Domains[0].Op {
+		if op.Op_get_name() == "i2rw" {
+			hasI2rw = true
+		}
+	}
+	zzAssert("handshaked-input-opcode-exactly-when-the-io-mode-is-sync", hasI2rw == (movIn && mode == "sync"))
 	// registers at the horizon (names are kept by the front-end)
 	P := vm.Processors[0]
 	for i := range P.Registers {
